@@ -7,7 +7,10 @@ enumx: explicit-state BFS over *programs* against the real frappy class / module
   def  creates the menu class `cid` with type(name, bases, dict) (vf.genmods.make_class -> the real
        HasAccessibles.__init_subclass__ / HasProperties.__init_subclass__), allowed once its menu bases exist
   new  instantiates class `cid` with configuration `cfgid` of the family in the program's node (a real SecNode /
-       Dispatcher; the module is created by SecNode.get_module, the lazy path also used for attached modules)
+       Dispatcher; the module is created by SecNode.get_module, the lazy path also used for attached modules).  All
+       instances of a program created with configuration j share its inner per-accessible Param objects (a new outer
+       dict each, as `common = dict(f=Param(..)); Mod('a', .., **common); Mod('b', .., **common)` in a cfg file); the
+       configuration objects must be unchanged after every step
   mut  changes instance k at run time (setProperty on a datatype / member datatype / command argument / result, unit change,
        applyMainUnit, enum growth exactly as HasControlledBy.register_input does it, register_input itself,
        attribute assignment)
@@ -16,7 +19,8 @@ Every program of every family up to the depth bound is executed from scratch (li
 definition and creation orders arise from the enumeration.  After the program's last step every class and instance alive is
 observed and compared with the observation of the same entity built ALONE (differential oracle, no expected values):
 
-  class     (order of accessibles, {name: aobj.for_export()}, module property table)
+  class     (order of accessibles, {name: aobj.for_export()}, module property table, the own properties of every accessible =
+             what subclasses defined later merge from, datatypes by their export)
   instance  (describe of the module, internal table of all parameters/commands incl. unexported ones, accept/reject
              table of datatype.validate(import_value(x), previous) on a universal probe list for every parameter and
              command argument, then - impure, at the very end - replies to read / change / do requests through the
@@ -96,6 +100,7 @@ FAMILIES = {
             'S1': {'bases': ['B'], 'body': {
                 'f': ['P', {'max': 5, 'unit': 'mK'}],
                 'e': ['P', {'datatype': ['enum', {'a': 1, 'b': 2, 'c': 3}]}],
+                'arr': ['P', {'maxchars': 3}],
             }},
             'S2': {'bases': ['B'], 'body': {'f': ['V', 3.0], 'i': ['V', 4], 'e': ['V', 2], 'arr': ['V', ['a']]}},
             'S3': {'bases': ['B'], 'body': {'i': ['N'], 'cmd': ['N']}},
@@ -104,6 +109,9 @@ FAMILIES = {
                 'cmd': ['M', 'echo'],
                 's': ['P', {'datatype': ['struct', {'x': ['double', {'min': 0, 'max': 3}], 'y': ['string', {'maxchars': 2}]}, None]}],
             }},
+            'S7': {'bases': ['S1'], 'body': {'f': ['V', 2.0], 'e': ['V', 2], 'arr': ['V', ['b']]}},
+            'S8': {'bases': ['B'], 'body': {'f': ['P', {'visibility': 'expert'}], 'e': ['P', {'readonly': True}],
+                                            'arr': ['P', {'minlen': 1}], 'i': ['V', 5]}},
             'S5': {'bases': ['S1'], 'body': {'f': ['P', {'min': 1}], 'arr': ['P', {'maxlen': 2}], 'visibility': ['V', 'expert']}},
             'S6': {'bases': ['B'], 'body': {
                 'cmd': ['C', {'argument': ['int', 0, 3], 'result': None, 'group': 'grp'}, 'echo'],
@@ -111,7 +119,8 @@ FAMILIES = {
                 'group': ['V', 'modgrp'],
             }},
         },
-        'instantiable': ['B', 'S1', 'S2', 'S3', 'S4', 'S5', 'S6'],
+        'instantiable': ['B', 'S1', 'S2', 'S3', 'S4', 'S5', 'S6', 'S7', 'S8'],
+        'quick_instantiable': ['B', 'S1', 'S2', 'S4', 'S5', 'S7', 'S8'],
         'configs': [
             {},
             {'f': {'max': 7.0, 'unit': 'C'}, 'i': {'value': 3}},
@@ -349,6 +358,14 @@ def dtexp(dt):
         return f'exc:{exc_name(e)}'
 
 
+def own_properties(aobj):
+    from frappy.datatypes import DataType
+    res = []
+    for k, v in (aobj.ownProperties or {}).items():
+        res.append([k, dtexp(v) if isinstance(v, DataType) else repr(v)])
+    return res
+
+
 def safe(fn, *args):
     try:
         return fn(*args)
@@ -368,6 +385,11 @@ class World:
         self.conn = self.node.connect()
         self.insts = []
         self.transitions = 0
+        # the configuration objects of the program: one object per configuration of the family, as a cfg file has it
+        # (common = dict(f=Param(...)); Mod('a', ..., **common); Mod('b', ..., **common)): every instance created with
+        # configuration j gets a new outer dict, the inner per-accessible Param objects are the same objects
+        self.cfgobjs = {}
+        self.cfgsnap = {}
         for cid in self.fam['prelude']:
             self.define(cid)
 
@@ -400,7 +422,7 @@ class World:
         if cls is None:
             inst['refused'] = ['no class']
             return
-        cfg = copy.deepcopy(self.fam['configs'][cfgid])
+        cfg = dict(self.config_object(cfgid))
         cfg['cls'] = cls
         cfg.setdefault('description', 'generated')
         self.node.module_cfg[name] = cfg
@@ -418,6 +440,23 @@ class World:
                 inst['obj'] = obj
         else:
             inst['obj'] = obj
+
+    def config_object(self, cfgid):
+        from frappy.config import Param
+        if cfgid not in self.cfgobjs:
+            obj = {}
+            for key, val in copy.deepcopy(self.fam['configs'][cfgid]).items():
+                if isinstance(val, dict):
+                    val = Param(val.pop('value'), **val) if 'value' in val else Param(**val)
+                obj[key] = val
+            self.cfgobjs[cfgid] = obj
+            self.cfgsnap[cfgid] = json.dumps(obj, default=repr)
+        return self.cfgobjs[cfgid]
+
+    def changed_configs(self):
+        """configuration objects which are not what they were when they were written"""
+        return [(cfgid, self.cfgsnap[cfgid], json.dumps(obj, default=repr)) for cfgid, obj in self.cfgobjs.items()
+                if json.dumps(obj, default=repr) != self.cfgsnap[cfgid]]
 
     def mutate(self, k, mid):
         self.transitions += 1
@@ -484,10 +523,12 @@ class World:
         if acc is None:     # plain mixin (not a frappy class): it has no description of its own
             return {'plain-mixin': True}
         export = [[name, safe(aobj.for_export)] for name, aobj in acc.items()]
+        # the properties a class hands on to subclasses defined later (ownProperties of its accessibles)
+        own = [[name, own_properties(aobj)] for name, aobj in acc.items()]
         props = []
         for pn, po in getattr(cls, 'propertyDict', {}).items():
             props.append([pn, repr(po.default), repr(po.value), po.mandatory, po.extname])
-        return {'export': export, 'props': props}
+        return {'export': export, 'props': props, 'own': own}
 
     def observe_inst_pure(self, k):
         inst = self.insts[k]
@@ -968,6 +1009,15 @@ def evaluate(family, steps, part, ref, parent=None):
             part.violation(sig, case,
                            f'program {json.dumps(case["steps"])} (family {family}): the same {tname} object is reachable '
                            f'from {ownera} via {patha} and from {ownerb} via {pathb}')
+        summary['cfgchanged'] = set()
+        for cfgid, before, after in world.changed_configs():
+            summary['cfgchanged'].add(cfgid)
+            if parent is not None and cfgid in parent.get('cfgchanged', ()):
+                continue
+            part.outcomes['config-object-changed'] += 1
+            part.violation(f'C09:{family}:config-objects-changed-by-creating-a-module:after-{lastkind}', case,
+                           f'program {json.dumps(case["steps"])} (family {family}): the configuration object {cfgid} shared by the '
+                           f'modules configured with it was {before} and is {after} after the last step')
         for inst in world.insts:
             for o in inst['mutout']:
                 part.outcomes['mut:' + o] += 1
